@@ -95,6 +95,22 @@ def norm_lit(facts, e, v):
 
 def in_lit(facts, x, vals, adt, positive=True):
     vals = frozenset(vals)
+    # `o?`: Option::branch(o) is Continue exactly when o is Some
+    if x[0] == "call" and x[1].endswith("::branch") and "option::Option" in x[1] and len(x[2]) == 1 and vals <= frozenset(["Continue", "Break"]):
+        m = {"Continue": "Some", "Break": "None"}
+        return in_lit(facts, x[2][0], [m[v] for v in vals], "core::option::Option", positive)
+    # a value whose variant is known
+    if adt in ("core::option::Option", "core::result::Result"):
+        known = None
+        if x[0] == "enum" and x[1] == adt:
+            known = x[2]
+        elif x[0] == "adt" and x[1].startswith(adt + "::"):
+            known = x[1][len(adt) + 2:]
+        if known is not None:
+            return ("const", (known in vals) == positive)
+    # c.then_some(v) is Some exactly when c holds
+    if x[0] == "call" and x[1].endswith("bool>::then_some") and len(x[2]) == 2 and vals in (frozenset(["Some"]), frozenset(["None"])):
+        return norm_lit(facts, x[2][0], (vals == frozenset(["Some"])) == positive)
     if positive:
         return ("in", x, vals, adt)
     if adt is not None:
@@ -213,6 +229,9 @@ class PG:
                 if pl["l"] in out:
                     return True
             e = a.expr_rvalue(rv, (dd[0], dd[1]))
+            if e[0] == "adt" and (e[1].startswith("core::option::Option::") or e[1].startswith("core::result::Result::")) and rv.get("agg") == "adt":
+                # `if c { Some(v) } else { None }`: which variant was built is carried along the path
+                return True
             return e[0] in ("str", "int", "enum", "bool", "bytes", "item")
 
         changed = True
@@ -284,6 +303,36 @@ class PG:
                     work.append(m)
             self.edges[n] = res
 
+    def env_at(self, n, idx):
+        """Environment of node n just before statement idx ("term" = before the terminator)."""
+        bi = self.nodes[n][0]
+        env = dict(self.envs[n])
+        if not self.tracked:
+            return env
+        stmts = self.body.blocks[bi]["stmts"]
+        upto = len(stmts) if idx == "term" else idx
+        for si in range(upto):
+            st = stmts[si]
+            if st["k"] == "assign" and not st["place"]["p"] and st["place"]["l"] in self.tracked:
+                env[st["place"]["l"]] = self._val(st["rv"], (bi, si), env, False)
+        return env
+
+    def eval_at(self, at, f):
+        """f(env) evaluated in the environment of every node of the site's block; the common value if they all
+        agree, else None (the caller falls back to the path-insensitive value)."""
+        ns = self.by_block.get(at[0], [])
+        if not ns or len(ns) > 64:
+            return None
+        vals = []
+        for n in ns:
+            env = self.env_at(n, at[1])
+            v = f(env if env else None)
+            if v not in vals:
+                vals.append(v)
+                if len(vals) > 1:
+                    return None
+        return vals[0]
+
     def _env_for_expr(self, env, bi):
         return env if env else None
 
@@ -327,8 +376,15 @@ class PG:
                     return [(tgt, ())]
             return [(t["otherwise"], ())]
         for (v, tgt), name in zip(t["targets"], listed):
-            out.append((tgt, (("in", x, frozenset([name]), adt),)))
+            l1 = in_lit(self.facts, x, [name], adt) if adt else ("in", x, frozenset([name]), adt)
+            if l1 == ("const", False):
+                continue
+            out.append((tgt, () if l1[0] == "const" else (l1,)))
         other = in_lit(self.facts, x, set(listed), adt, False)
+        if other[0] == "const":
+            if other[1]:
+                out.append((t["otherwise"], ()))
+            return out
         if not (other[0] == "in" and not other[2]):
             out.append((t["otherwise"], (other,)))
         return out
@@ -451,6 +507,34 @@ class PG:
             work += [m for m, _ in self.edges[n] or []]
         return True, len(starts)
 
+    def holds_at_exit(self, write_eval, assume=None):
+        """Product with a 'last write' state. write_eval(node) -> None (the node's block does not write the
+        thing), True (its last write stores a value that is true under the assumption) or False (anything else).
+        True iff on every path entry -> return (edges contradicting `assume` pruned) the last write was a True one.
+        Returns (ok, witness blocks)."""
+        start = (0, None)
+        seen = {start: None}
+        work = [start]
+        cache = {}
+        while work:
+            st = work.pop()
+            n, s = st
+            if n not in cache:
+                cache[n] = write_eval(n)
+            w = cache[n]
+            s2 = s if w is None else w
+            bi = self.nodes[n][0]
+            if self.body.blocks[bi]["term"]["k"] == "return" and s2 is not True:
+                return False, self._witness(seen, st)
+            for m, lits in self.edges[n] or []:
+                if assume and any(contradicts(self.facts, a, l) for a in assume for l in lits):
+                    continue
+                nx = (m, s2)
+                if nx not in seen:
+                    seen[nx] = st
+                    work.append(nx)
+        return True, None
+
     def block_reaches(self, src_block, dst_pred):
         """Is some block with dst_pred reachable (through >= 1 edge) from src_block?"""
         seen = set()
@@ -523,20 +607,66 @@ class PG:
                 d = (bi, "term", "call", t)
             return d
 
-        def dfs(n, lits, onpath, rdef):
+        # locals with several definitions take, on a given path, the value of the last definition passed on it
+        multi = {l for l, d in enumerate(a.defs) if len(d) >= 2 and l != 0 and not a.partial[l] and not a.mutref[l] and not a.is_param(l)}
+
+        def path_env(bi, penv, nenv):
+            b = body.blocks[bi]
+            out_env = penv
+            for si, st in enumerate(b["stmts"]):
+                if st["k"] == "assign" and not st["place"]["p"] and st["place"]["l"] in multi:
+                    env = dict(out_env)
+                    env.update(nenv or {})
+                    if out_env is penv:
+                        out_env = dict(penv)
+                    out_env[st["place"]["l"]] = a.expr_rvalue(st["rv"], (bi, si), 0, env or None)
+            t = b["term"]
+            if t["k"] == "call" and t.get("dest") and not t["dest"]["p"] and t["dest"]["l"] in multi:
+                env = dict(out_env)
+                env.update(nenv or {})
+                if out_env is penv:
+                    out_env = dict(penv)
+                out_env[t["dest"]["l"]] = a.expr_call(t, (bi, "term"), 0, env or None)
+            return out_env
+
+        def dfs(n, lits, onpath, rdef, penv):
             cnt[0] += 1
             if cnt[0] > limit:
                 raise OverflowError("too many paths")
             bi = self.nodes[n][0]
             d = last_ret_def(bi)
             if d is not None:
-                rdef = (d, self.envs[n])
+                rdef = (d, self.envs[n], penv)
+            if multi:
+                penv = path_env(bi, penv, self.envs[n])
             if body.blocks[bi]["term"]["k"] == "return":
                 if rdef is None:
-                    v = a.expr_local(0, (bi, "term"), 0, frozenset(), dict(self.envs[n]) if self.envs[n] else None)
+                    env = dict(penv)
+                    env.update(self.envs[n] or {})
+                    v = a.expr_local(0, (bi, "term"), 0, frozenset(), env or None)
                 else:
-                    d, env = rdef
-                    env = dict(env) if env else None
+                    d, env0, penv0 = rdef
+                    if d[2] == "assign":
+                        # definitions of the same block that precede the assignment count
+                        pe = dict(penv0)
+                        b = body.blocks[d[0]]
+                        for si in range(d[1]):
+                            st = b["stmts"][si]
+                            if st["k"] == "assign" and not st["place"]["p"] and st["place"]["l"] in multi:
+                                e2 = dict(pe)
+                                e2.update(env0 or {})
+                                pe[st["place"]["l"]] = a.expr_rvalue(st["rv"], (d[0], si), 0, e2 or None)
+                        env = pe
+                    else:
+                        env = dict(path_env(d[0], penv0, env0)) if False else dict(penv0)
+                        b = body.blocks[d[0]]
+                        for si, st in enumerate(b["stmts"]):
+                            if st["k"] == "assign" and not st["place"]["p"] and st["place"]["l"] in multi:
+                                e2 = dict(env)
+                                e2.update(env0 or {})
+                                env[st["place"]["l"]] = a.expr_rvalue(st["rv"], (d[0], si), 0, e2 or None)
+                    env.update(env0 or {})
+                    env = env or None
                     if d[2] == "assign":
                         v = a.expr_rvalue(d[3], (d[0], d[1]), 0, env)
                     else:
@@ -546,7 +676,7 @@ class PG:
             for m, ls in self.edges[n] or []:
                 if m in onpath:
                     continue
-                dfs(m, lits + list(ls), onpath | {m}, rdef)
+                dfs(m, lits + list(ls), onpath | {m}, rdef, penv)
 
-        dfs(0, [], {0}, None)
+        dfs(0, [], {0}, None, {})
         return out
